@@ -287,6 +287,21 @@ def rule_err(ctx, f):
     return M, W
 
 
+def rule_resolve_helper(ctx, f):
+    ctx.rule("C18-ERR-helper", "Primitive::resolve hands the resolver's answer on as it is: a missing object stays a missing-object error (which the Option reader turns "
+             "into None); turning it into Primitive::Null there makes strict readers fail with `unexpected Null`, which nobody recognises as absence")
+    b = f.body("primitive::Primitive::resolve")
+    if b is None:
+        ctx.lost("C18-ERR-helper", "primitive::Primitive::resolve")
+        return
+    nulls = [i for i, j, st in F.stmts(b) if st[0] == "assign" and st[2][0] == "aggregate" and st[2][1].get("adt") == "primitive::Primitive" and st[2][1].get("variant") == "Null"]
+    tests = [t for bi, t in F.calls(b) if last_seg(F.callee_name(t)) in ("is_missing_object", "is_err", "ok", "unwrap_or", "unwrap_or_default", "unwrap_or_else", "or_else")]
+    res = [t for bi, t in F.calls(b) if t.get("callee") in ("object::Resolve::resolve", "object::Resolve::resolve_flags")]
+    ctx.floor("C18-ERR-helper", len(res), 1, "resolver call in Primitive::resolve")
+    ctx.check(not nulls and not tests, "C18-ERR-helper", "Primitive::resolve#passes-errors", "Primitive::resolve replaces an error of the resolver by a value (%s)"
+              % ("builds Primitive::Null" if nulls else ", ".join(last_seg(F.callee_name(t)) for t in tests)), b["span"], detail="Reference(id) => r.resolve(id)")
+
+
 def rule_flatten(ctx, f):
     ctx.rule("C18-ERR-text", "a loader that hands on an error it did not produce (the typed load `Resolve::get`, the resolver, the Option / container readers) "
              "wraps or propagates it; it never formats it into the text of a new error, which would hide a 'no such object' cause from the Option reader")
@@ -515,6 +530,45 @@ def rule_elements(ctx, f):
 GROW = ("push", "resize", "resize_with", "extend", "extend_from_slice", "insert", "reserve", "append", "extend_from_within", "set_len", "splice")
 
 
+ITER_OK = ("into_iter", "iter", "map", "collect", "try_collect", "cloned", "copied", "enumerate", "by_ref", "into_array", "resolve", "branch", "from_residual", "new", "new_uninit",
+           "box_assume_init_into_vec_unsafe", "from_primitive", "with_capacity", "push", "next", "len", "deref", "as_slice")
+ITER_BAD = ("filter", "filter_map", "skip", "skip_while", "take", "take_while", "step_by", "rev", "dedup", "retain", "flat_map", "flatten", "chain", "zip", "sort", "sort_by",
+            "truncate", "remove", "swap_remove", "drain", "pop")
+
+
+def rule_vec_reader(ctx, f, rid):
+    """the generic array reader used by every Vec-typed entry (filter parameters, kids, annotations, ..): shared by C05 (the i-th /DecodeParms belongs to
+    the i-th /Filter), C07 (an indirect /Kids array) and C18 (elements read by the element reader)"""
+    ctx.rule(rid, "Vec<T>::from_primitive maps every element of the array, in order, through T's reader (no filtering, skipping or reordering adaptor - positions "
+             "matter), and a reference is resolved and read again as the array it points to, not offered to T first")
+    b = f.impl_method("object::Object", "std::vec::Vec<T>", "from_primitive")
+    if b is None:
+        ctx.lost(rid, "<Vec<T> as Object>::from_primitive")
+        return
+    names = [last_seg(F.callee_name(t)) for bb in f.with_closures(b["id"]) for bi, t in F.calls(bb)]
+    bad = sorted({n for n in names if n in ITER_BAD})
+    ctx.check(not bad, rid, "Vec<T>#in-order", "the array reader applies %s to the elements: null placeholders or other entries are dropped / moved, so an entry that is "
+              "paired by position with another array (the i-th /DecodeParms with the i-th /Filter) goes to the wrong partner" % bad, b["span"], detail="into_iter().map(T::from_primitive).collect()")
+    # the Reference arm
+    from tables import enum_switches, exclusive_regions
+    sws = enum_switches(b, "primitive::Primitive", f)
+    vs = {v["name"]: v["vi"] for v in f.adts["primitive::Primitive"]["variants"]}
+    ok = False
+    if sws:
+        i, pl, arms, other = sws[0]
+        cfg = CFG(b)
+        regs = exclusive_regions(cfg, {k: tg for k, tg in arms.items()})
+        if vs["Reference"] in arms:
+            reg = regs.get(vs["Reference"], set()) | {arms[vs["Reference"]]}
+            calls = [(r, b["blocks"][r]["term"]) for r in reg if b["blocks"][r]["term"]["k"] == "call"]
+            res = [r for r, t in calls if t.get("callee") in ("object::Resolve::resolve", "object::Resolve::resolve_flags") or last_seg(F.callee_name(t)) == "resolve"]
+            selfc = [r for r, t in calls if F.callee_name(t) == b["id"] or (t.get("resolved") or "") == b["id"]]
+            elem = [r for r, t in calls if t.get("callee") == "object::Object::from_primitive" and (t.get("self_ty") or {}).get("k") == "param"]
+            ok = bool(res) and bool(selfc) and not elem
+    ctx.check(ok, rid, "Vec<T>#reference-arm", "a reference in place of an array is not resolved and read again as an array (or is offered to the element type first): an indirect "
+              "/Kids or /Annots array whose element type accepts a reference is read as a single element", b["span"], detail="Reference(r) => Self::from_primitive(resolve(r)?)")
+
+
 def rule_size(ctx, f):
     ctx.rule("C18-SIZE", "reading never makes room in the cross-reference table: it has the /Size slots it was created with, the merge of a section stores "
              "through get_mut() only, and only create / promise append to it - so a number at or beyond /Size stays undefined and reads as absent")
@@ -551,10 +605,12 @@ def run(ctx):
     f = F.load("default")
     ctx.count("bodies", len(f.bodies))
     rule_err(ctx, f)
+    rule_resolve_helper(ctx, f)
     rule_flatten(ctx, f)
     rule_absent(ctx, f)
     rule_required(ctx, f)
     rule_elements(ctx, f)
+    rule_vec_reader(ctx, f, "C18-G2")
     rule_size(ctx, f)
     return ctx.finish(
         "Static analysis of MIR facts: (ERR) the PdfError variants constructed where the lookup finds no object and the variants "
